@@ -364,7 +364,14 @@ def rule_R02_5(ctx):
                 r.inst("%s: %s — UNREVIEWED" % (f.path, c.res))
                 r.unproven.append("%s calls %s at %s (not provably dead, not "
                                   "a reviewed exception)" % (f.path, c.res, c.loc))
-    r.require_floor("explicit panic sites", total, 4)
+    # Fewer explicit panics is never a violation (a clean-up may remove dead
+    # arms altogether), so there is no floor on hand-written sites; the
+    # vacuity guard is a positive control instead: the recogniser must match
+    # somewhere in the crate, generated and macro-expanded code included.
+    control = sum(1 for f in prog.fns.values() if f.full for c in f.calls()
+                  if not c.is_ptr and PANIC_CALLEES.match(c.res or ""))
+    r.inst("hand-written explicit panic sites: %d; recogniser control (whole crate): %d" % (total, control))
+    r.require_floor("panic-callee recogniser matches in the crate (positive control)", control, 1)
     return r
 
 
